@@ -393,6 +393,16 @@ impl Rq {
         }
         self.reply(&Response::Result(ResultBody::Rows { metadata: md, rows }));
     }
+    /// The server executes USE when it receives it: the connection is in the keyspace from now on, whenever the
+    /// answer travels (`reply_set_keyspace`). Requests on a connection are executed in the order they arrive, so a
+    /// late ANSWER to an old USE must never undo a newer USE.
+    pub fn apply_keyspace(&self, ks: &str) {
+        *self.conn.keyspace.lock().unwrap() = Some(ks.to_string());
+        self.cluster.log.push(Ev::KeyspaceAck { node: self.node.idx, conn: self.conn.id, keyspace: ks.to_string() });
+    }
+    pub fn reply_set_keyspace(&self, ks: &str) {
+        self.reply(&Response::Result(ResultBody::SetKeyspace(ks.to_string())));
+    }
     pub fn ack_keyspace(&self, ks: &str) {
         // the acknowledgement becomes true once the response is written: record first (logical order)
         *self.conn.keyspace.lock().unwrap() = Some(ks.to_string());
